@@ -5,11 +5,11 @@ from . import base
 ID = 'C01'
 LEVEL = 'exploration'
 PLAN = {
-    'quick': [('synth', 24000), ('synth_cli', 6000), ('shipped', 960)],
-    'thorough': [('synth', 900000), ('synth_cli', 200000), ('shipped', 40000)],
+    'quick': [('synth', 24000), ('synth_cli', 6000), ('synth_reuse', 5000), ('shipped', 960)],
+    'thorough': [('synth', 900000), ('synth_cli', 200000), ('synth_reuse', 200000), ('shipped', 40000)],
 }
 DEADLINE = {'quick': 200, 'thorough': 3300}
-PROBES = ['line-reattempted', 'refusal-with-waiters-outstanding', 'abort-after-prompts',
+PROBES = ['store-reused-after-edit', 'line-reattempted', 'refusal-with-waiters-outstanding', 'abort-after-prompts',
           'not-solved-by-model', 'cli-failure-text-checked']
 ASSUMPTIONS = [
     'the reference model R1 (simtax/refmodel.py) is a correct reading of "every demanded line was really computed"',
@@ -33,7 +33,13 @@ def cli_script(case, seed):
 
 
 def evaluate(case, engine, acc=None):
-    if engine == 'synth_cli':
+    if engine == 'synth_reuse':
+        # a second solve on the same InputStore after inputs were deleted / re-set through its mapping API
+        _, run, case, edits = simrun.execute_reuse(case, case.get('reuse_seed', 0))
+        if acc is not None and edits:
+            acc.count('probe:store-reused-after-edit')
+            acc.count('fault:store-edited-between-solves')
+    elif engine == 'synth_cli':
         run = simrun.execute_cli(case, case.get('cli'))
     else:
         run = simrun.execute(case)
@@ -76,6 +82,8 @@ def run_one(engine, seed, acc, tier):
     case = gen.gen_case(seed)
     if engine == 'synth_cli':
         case['cli'] = cli_script(case, seed)
+    if engine == 'synth_reuse':
+        case['reuse_seed'] = seed
     for f in evaluate(case, engine, acc):
         acc.violation(base.violation(ID, f, case, seed, engine))
 
